@@ -462,6 +462,9 @@ class Lowerer:
         if c:
             return c
         cands = [k for k in recs if k == key or k.endswith('::' + key)]
+        if not cands and key.startswith('manifold::') and key[len('manifold::'):] in recs:
+            # an explicit instantiation written at global scope is indexed without the namespace
+            cands = [key[len('manifold::'):]]
         if not cands and '<' in key:
             head, args = key.split('<', 1)
             args = args[:-1]
